@@ -403,9 +403,6 @@ fn c05_gen_e2e(rng: &mut Rng, thorough: bool) -> Vec<String> {
                     let bits = [32u32, 64, 112][(n + shards) % 3];
                     let style = (n as u64 + shards as u64) % 5;
                     let rows = c05_rows(rng, bits, n, style);
-                    if !thorough && mode == "sh" && n % 2 == 1 && *dist == "rnd" {
-                        continue;
-                    }
                     push(mode, bits, shards, dist, rng.next_u64(), &rows);
                 }
             }
@@ -422,7 +419,7 @@ fn c05_gen_e2e(rng: &mut Rng, thorough: bool) -> Vec<String> {
             push("sh", bits, shards, dist, rng.next_u64(), &rows);
         }
     }
-    for _ in 0..(if thorough { 60 } else { 6 }) {
+    for _ in 0..(if thorough { 200 } else { 30 }) {
         let bits = *rng.pick(&[32u32, 64, 112]);
         let shards = 1 + rng.usize_below(3);
         let dist = if shards == 1 { "rr" } else { *rng.pick(&["rr", "rnd", "last"]) };
@@ -541,15 +538,15 @@ fn c05_gen_tamper(rng: &mut Rng, thorough: bool) -> Vec<String> {
     // tag bytes vs row bytes, later chunks, empty input (nothing to alter except the cardinality word)
     for a in &attacks[..4] {
         push(32, 3, rng.next_u64(), 60, *a, 4, 0x80, 0); // first byte of the tag of the first row (BA64 = row‖tag)
-        push(32, 3, rng.next_u64(), 60, *a, 3, 0x01, 1);
+        push(32, 3, rng.next_u64(), 60, *a, 11, 0x01, 0); // second row of the first chunk, if present
         push(32, 2, rng.next_u64(), 0, *a, 0, 1, 0);
     }
     push(32, 2, rng.next_u64(), 0, attacks[4], 0, 1, 0);
-    push(64, 3, rng.next_u64(), 0, attacks[4], 0, 2, 1);
-    for _ in 0..(if thorough { 60 } else { 6 }) {
+    push(64, 3, rng.next_u64(), 0, attacks[4], 0, 2, 0);
+    for _ in 0..(if thorough { 150 } else { 20 }) {
         let a = *rng.pick(&attacks[..4]);
         let bits = *rng.pick(&[32u32, 64, 112]);
-        push(bits, 1 + rng.usize_below(3), rng.next_u64(), 1 + rng.usize_below(80), a, rng.usize_below(200), 1 << rng.below(8), rng.usize_below(2));
+        push(bits, 1 + rng.usize_below(3), rng.next_u64(), 1 + rng.usize_below(80), a, rng.usize_below(200), 1 << rng.below(8), 0);
     }
     out
 }
